@@ -381,7 +381,7 @@ def rewrite(ot, drops, where, extra=None):
 class Fn:
   def __init__(self, file, name, impl=None, emit_impl=None, ret="r", requires=(), ensures=(),
                loops=None, hints=(), extra=(), nth=0, sig_sub=(), contract_only=False, prefix="",
-               decreases=None, attrs=(), probe=True, rename=None, recommends=(), safety_props=None):
+               decreases=None, attrs=(), probe=True, rename=None, recommends=(), safety_props=None, mut_params=()):
     self.file, self.name, self.impl = file, name, impl
     self.emit_impl = emit_impl  # e.g. "impl ZmtpManualParser" ; None => free fn
     self.ret = ret
@@ -399,6 +399,7 @@ class Fn:
     self.rename = rename
     self.recommends = list(recommends)
     self.safety_props = list(safety_props) if safety_props else None
+    self.mut_params = list(mut_params)  # R5: `mut x: T` by-value params -> `x: T` + `let mut x = x;` (so `x` in ensures is the argument)
     self.contract_only = contract_only  # callee proved in another unit: signature + contract only (external_body)
     if contract_only:
       self.probe = False
@@ -547,6 +548,11 @@ def extract_fn(gen, f, probe=False):
       raise VxError("signature anchor lost in %s::%s: %r" % (f.file, f.name, old))
     s2 = s2.replace(old, new)
     gen.drops.append({"rule": "R5", "at": "%s:%d" % (where, src.line_of(ls)), "what": "signature: %s -> %s" % (old, new)})
+  for mp in f.mut_params:
+    if not re.search(r"\bmut\s+%s\s*:" % re.escape(mp), s2):
+      raise VxError("signature anchor lost in %s::%s: `mut %s:`" % (f.file, f.name, mp))
+    s2 = re.sub(r"\bmut\s+(%s\s*:)" % re.escape(mp), r"\1", s2, count=1)
+    gen.drops.append({"rule": "R5", "at": "%s:%d" % (where, src.line_of(ls)), "what": "by-value parameter `mut %s` -> immutable `%s` plus local `let mut %s__m = %s;` (body occurrences alpha-renamed)" % (mp, mp, mp, mp)})
   if f.rename:
     s2 = re.sub(r"\bfn\s+" + re.escape(f.name) + r"\b", "fn " + f.rename.split("::")[-1], s2, count=1)
   # return type
@@ -584,6 +590,16 @@ def extract_fn(gen, f, probe=False):
     return out, qual
   # ---- body rewrites
   rewrite(body, gen.drops, where, f.extra)
+  # R5: alpha-renaming of `mut` by-value parameters inside the body (the parameter itself stays immutable)
+  for mp in f.mut_params:
+    pos = 0
+    while True:
+      mk = body.mask()
+      mm = re.compile(r"(?<![A-Za-z0-9_.])%s(?![A-Za-z0-9_])" % re.escape(mp)).search(mk, pos)
+      if not mm:
+        break
+      body.replace(mm.start(), mm.end(), mp + "__m")
+      pos = mm.start() + len(mp) + 3
   # ---- loops
   mask = body.mask()
   sites = _loop_sites(mask)
@@ -655,6 +671,9 @@ def extract_fn(gen, f, probe=False):
       gi = spec.get("ghost_iter")
       newhdr = "for %s in %s%s%s" % (m.group(1), (gi + ": ") if gi else "", expr, m.group(3))
       add_op(st, brace, newhdr, body.o[st])
+  if not f.contract_only:
+    for mp in f.mut_params:
+      add_op(1, 1, "\n    let mut %s__m = %s;\n" % (mp, mp), sigline)
   # ---- structural hints: @fn_start, @loop_start:N, @loop_end:N (robust against edits of statement text)
   text_hints = []
   for h in f.hints:
